@@ -49,6 +49,7 @@ fn main() {
         "insphere" => ops::insphere::run(&mut out, &mut rng, thorough),
         "tess" => ops::tess::run(&mut out, &mut rng, thorough),
         "cells" => ops::cells::run(&mut out, &mut rng, thorough),
+        "cellsin" => ops::cells::run_file(&mut out, extra.first().expect("cellsin needs a file")),
         "iloc" => ops::iloc::run(&mut out, &mut rng, thorough),
         "geom" => ops::geom::run(&mut out, &mut rng, thorough),
         "withfaces" => ops::withfaces::run(&mut out, &mut rng, thorough),
